@@ -37,6 +37,17 @@ class Ctx:
         return common.rng(self.seed, self.prop_id, *salt)
 
 
+def anchored_files(prop):
+    try:
+        for line in open(os.path.join(common.VERIF, "properties.jsonl")):
+            rec = json.loads(line)
+            if rec["id"] == prop:
+                return list(rec["anchors"]["files"])
+    except Exception:
+        pass
+    return []
+
+
 def main():
     ap = argparse.ArgumentParser()
     ap.add_argument("prop")
@@ -99,10 +110,52 @@ def run(prop, tier, seed, scratch, replay, t0):
 
     # 2+3. correspondence and oracle ------------------------------------------------------------
     ctx = Ctx(prop, tier, seed, scratch, model_ok)
-    if replay:
-        res = mod.replay(ctx, json.load(open(replay)))
-    else:
-        res = mod.run(ctx)
+    anchors = anchored_files(prop)
+    cov = None
+    if not replay and not os.environ.get("VERIF_NO_COVERAGE"):
+        try:
+            import coverage
+            cov = coverage.Coverage(data_file=None, include=[os.path.join(common.repo_dir(), "gffutils", "*.py")])
+            cov.start()
+        except Exception:
+            cov = None
+    try:
+        if replay:
+            res = mod.replay(ctx, json.load(open(replay)))
+        else:
+            res = mod.run(ctx)
+    finally:
+        if cov is not None:
+            cov.stop()
+    modelled = {"baseline": None, "count": 0, "changed": []}
+    try:
+        sys.path.insert(0, os.path.join(common.VERIF, "tools"))
+        import modelmap
+        rows = modelmap.compare(common.repo_dir(), set(anchors))
+        modelled = {"baseline": json.load(open(modelmap.BASELINE)).get("validated_against"),
+                    "count": len(rows),
+                    "changed": [{"function": r["file"] + ":" + r["function"], "lean": r["lean"]} for r in rows if r["changed"]],
+                    "note": "modelled functions in the anchored files whose statements differ from the tree the model was "
+                            "last validated against; this run's correspondence is what re-validates them"}
+    except Exception as ex:
+        modelled["note"] = "model map unavailable: %r" % ex
+    anchored = {}
+    for rel in anchors:
+        path = os.path.join(common.repo_dir(), rel)
+        info = {}
+        try:
+            import hashlib
+            info["sha1"] = hashlib.sha1(open(path, "rb").read()).hexdigest()
+        except OSError:
+            info["sha1"] = None
+        if cov is not None:
+            try:
+                _, stmts, _, missing, _ = cov.analysis2(path)
+                info["statements"] = len(stmts)
+                info["executed"] = len(stmts) - len(missing)
+            except Exception:
+                pass
+        anchored[rel] = info
 
     # 4. verdict -------------------------------------------------------------------------------
     findings = common.load_findings(prop)
@@ -162,6 +215,10 @@ def run(prop, tier, seed, scratch, replay, t0):
             "constants_checked": res.constants_checked,
             "known_findings_reproduced": sorted(res.known_hits),
             "repo": common.repo_state(),
+            "anchored_source": anchored,
+            "modelled_functions": modelled,
+            "anchored_source_note": "sha1 of each file the property anchors, as imported by this run, and how many of its "
+                                    "statements the run executed in this process (coverage.py; worker processes not counted)",
             "build_s": round(build_s, 1),
         },
         "assumptions": res.assumptions,
@@ -176,6 +233,8 @@ def run(prop, tier, seed, scratch, replay, t0):
     print("%s tier=%s seed=%d theorems=%d/%d evaluations=%d nontrivial=%d corr=%d disagreements=%d oracle_failures=%d wall=%.1fs"
           % (prop, tier, seed, n_dis, n_obl, res.evaluations, len(res.nontrivial), res.corr_checked,
              len(res.corr_disagreements), len(res.oracle_failures), time.time() - t0))
+    for c in modelled.get("changed", []):
+        print("note: %s differs from the tree the model was validated against (model: %s)" % (c["function"], ", ".join(c["lean"])))
     if vio_line:
         print(vio_line)
     return rc
